@@ -792,6 +792,11 @@ fn check_direct_case(item: &str, ctx: &Ctx) -> Outcome {
 
 fn direct_residue(si: usize, run_first: bool, line: &str, ctx: &Ctx) -> Outcome {
     let line = line.to_string();
+    if line.contains("GOSUB") && line.contains("RENUM") {
+        // after a renumbering, line 100 is no longer the subroutine that returns: a GOSUB that
+        // runs into END is an abandoned GOSUB, and its frame legitimately stays
+        return Outcome::discard("GOSUB beside a RENUM: the target changes its meaning");
+    }
     let case = format!("{}\n{}{} (typed repeatedly)", STORES[si].join("\n"), if run_first { "RUN\n" } else { "" }, line);
     crate::runner::note_case(&case);
     let mut term = Term::new();
@@ -825,10 +830,7 @@ fn direct_residue(si: usize, run_first: bool, line: &str, ctx: &Ctx) -> Outcome 
         }
         depth.push(term.rt.verif_probe().stack_len);
     }
-    // a GOSUB that the execution gate refuses stays pending like any abandoned GOSUB (the
-    // documented stack behaviour): such lines are not statements that leave nothing behind
-    let abandoned = si >= 2 && line.contains("GOSUB");
-    let grows = depth[9] > depth[5] && depth[5] > depth[1] && !abandoned;
+    let grows = depth[9] > depth[5] && depth[5] > depth[1];
     if grows {
         // a direct line that costs memory each time it is typed: typed often enough, does the
         // interpreter run out of memory where the same line worked before?
